@@ -8,6 +8,7 @@ import FrappyProofs.Lemmas.ActivateMatch
 import FrappyProofs.Lemmas.ActivateLossExplicit
 import FrappyProofs.Lemmas.ActivateExported
 import FrappyProofs.Lemmas.ActivateDeadlock
+import FrappyProofs.Lemmas.ActivateCache
 import FrappyModel.Generated.C08
 /-
 C08 — property theorems (nothing but property theorems and their non-vacuity examples).
@@ -177,6 +178,86 @@ inside the region the lock guards. -/
 theorem locks_exclusive (cfg : Cfg) (hs : Conn → List Req) (us : Nat → List (Mod × Par × Entry))
     (cache : Mod → Par → Entry) (σ : State) (h : Reach cfg (init hs us cache) σ) : LockInv σ :=
   lockInv_reach cfg hs us cache σ h
+
+/-! ### round 4: the cache with its time stamps, omitted announcements, updates produced by `read` / `change` requests -/
+
+/-- "… the last message it holds for a parameter equals the node's cache once things are quiet", with the node's cache itself
+(`σ.cache`: value or error class AND time stamp of every parameter) instead of the cache reconstructed from the trace: in every
+reachable quiet state the last update a connection holds for a parameter firmly in scope IS the entry the node holds — its
+qualifier `t` included.  (The harness hands the real node's final cache to the same monitor, `quiescentBadNow`.) -/
+theorem quiescent_last_eq_node_cache (cfg : Cfg) (hs : Conn → List Req) (us : Nat → List (Mod × Par × Entry))
+    (cache : Mod → Par → Entry) (σ : State) (h : Reach cfg (init hs us cache) σ) :
+    QuiescentLastEq cfg σ.cache σ.trace := by
+  have h1 := quiescent_last_eq_cache cfg hs us cache σ h
+  rw [← cacheAfter_is_cache cfg hs us cache σ h]
+  exact h1
+
+/-- The cache changes only by a store that is in the trace: any action either leaves the whole cache — every value, error
+class and time stamp — as it is and appends no `emit` event, or it is the store of an announced assignment: it appends
+`emit k m p e`, `m:p` now holds exactly `e`, and nothing else changed.  No request-thread action changes the cache. -/
+theorem cache_changes_only_by_store (cfg : Cfg) (σ σ' : State) (a : Act) (h : step cfg σ a = some σ') :
+    (σ'.cache = σ.cache ∧ ∀ u m p e, σ'.trace ≠ σ.trace ++ [.emit u m p e] ∨ a.t ≠ .u u) ∨
+    ∃ k m p e, a.t = .u k ∧ σ'.trace = σ.trace ++ [.emit k m p e] ∧ emits cfg m p (σ.cache m p) e = true ∧
+      storedAt σ.cache σ'.cache m p e := by
+  unfold step at h
+  split at h
+  · rename_i c hc
+    left
+    refine ⟨cache_stepH cfg σ σ' c h, ?_⟩
+    intro u m p e; right; rw [hc]; simp
+  · rename_i k hk
+    rcases cache_stepU cfg σ σ' k a.arg (stepUG_some h) with ⟨h1, h2⟩ | ⟨m, p, e, h1, h2, h3⟩
+    · left; exact ⟨h1, fun u m p e => Or.inl (h2 u m p e)⟩
+    · right; exact ⟨k, m, p, e, hk, h1, h2, h3⟩
+
+/-- An announcement that is omitted — a repeated identical error, an unchanged value inside the parameter's omit window, a
+parameter that is not exported — stores nothing: value, error state and TIME STAMP of the entry stay as they are and no event
+is produced (so what the connections hold stays equal to the cache). -/
+theorem omitted_announcement_stores_nothing (cfg : Cfg) (σ σ' : State) (k : Nat) (arg : Conn) (m : Mod) (p : Par) (e : Entry)
+    (rest : List (Mod × Par × Entry)) (hpc : σ.upc k = .idle) (hsc : σ.uscript k = (m, p, e) :: rest)
+    (hem : emits cfg m p (σ.cache m p) e = false) (hs : step cfg σ ⟨.u k, arg⟩ = some σ') :
+    σ'.cache = σ.cache ∧ σ'.trace = σ.trace :=
+  omitted_stores_nothing cfg σ σ' k arg m p e rest hpc hsc hem (stepUG_some hs)
+
+/-- The omit window, exactly as `announceUpdate` computes it (`not changed and timestamp < (pobj.timestamp or 0) +
+omit_unchanged_within`): the same value again for an exported parameter is announced iff its time stamp is at least the
+window later than the stored one — also for a window that ends during the run, a window of 0 and time stamps that go back;
+a different value, and any value after an error, is always announced; an error is announced iff it is not the same class. -/
+theorem omit_window_exact (cfg : Cfg) (m : Mod) (p : Par) (hx : exported cfg m p = true) (v v' : Int) (t t' k k' : Nat) :
+    emits cfg m p (.val v t') (.val v t) = decide (t' + cfg.omitWithin m p ≤ t) ∧
+    (v' ≠ v → emits cfg m p (.val v' t') (.val v t) = true) ∧
+    emits cfg m p (.err k t') (.val v t) = true ∧
+    emits cfg m p (.val v t') (.err k t) = true ∧
+    emits cfg m p (.err k' t') (.err k t) = decide (k' ≠ k) := by
+  refine ⟨?_, ?_, ?_, ?_, ?_⟩
+  · by_cases h : t < t' + cfg.omitWithin m p
+    · simp [emits, omitted, hx, h, Nat.not_le.mpr h]
+    · simp [emits, omitted, hx, h, Nat.not_lt.mp h]
+  · intro hv; simp [emits, omitted, hx, hv]
+  · simp [emits, omitted, hx]
+  · simp [emits, sameErr, hx]
+  · by_cases hk : k' = k <;> simp [emits, sameErr, hx, hk]
+
+/-- Updates produced by a connection's own `read` / `change` request.  The announcement of such a request is run by the updater
+slot `own c`; in every reachable state that slot is at rest unless the connection's thread is inside the call — it holds
+`_lock`, its open request in the trace is that `read` / `change` — and the slot never ends.  Hence every property theorem
+above (`no_loss`, `snapshot_complete`, `quiescent_last_eq_cache`, `silent_after_deactivate`, `only_exported`, …), which holds
+for the events of all updater slots, holds for the updates a request produces: in particular the requester itself, when the
+parameter lies in its firmly-in-force scope, has been sent the value when the announcement returns (`no_loss` for `u = own c`). -/
+theorem request_update_within_request (cfg : Cfg) (hs : Conn → List Req) (us : Nat → List (Mod × Par × Entry))
+    (cache : Mod → Par → Entry) (hown : ∀ c, us (own c) = []) (σ : State) (h : Reach cfg (init hs us cache) σ) (c : Conn)
+    (hbusy : slotIdle σ (own c) = false) :
+    σ.disp = some c ∧ ∃ w m p e, matchMon.after matchMon.init σ.trace c = some (.rw w m p e) := by
+  have hO := ownInv_reach cfg hs us cache hown σ h
+  have hL := lockInv_reach cfg hs us cache σ h
+  have hM := matchInv_reach cfg hs us cache σ h
+  have hin : inCall (σ.hpc c) = true := by
+    cases hc : inCall (σ.hpc c) with
+    | true => rfl
+    | false => rw [hO.rest c hc] at hbusy; cases hbusy
+  refine ⟨(hL.disp c).1 (by cases hpc : σ.hpc c <;> simp_all [inCall]), ?_⟩
+  obtain ⟨w, m, p, e, hcur⟩ := inCall_curReq hin
+  exact ⟨w, m, p, e, by rw [← hcur]; exact hM.cur c⟩
 
 /-- The string tests of `Dispatcher.unsubscribe` (`':' in`, `startswith(f'{eventname}:')`, exact key) remove exactly the
 subscriptions the deactivation matches — for ALL names, in particular names that are string prefixes of one another
@@ -400,5 +481,95 @@ example : silentMon.accepts
     [.reqStart 1 (.activate (.par mT pTarget)), .deliver 1 mT pTarget (.val 0 0), .reply 1 (.activate (.par mT pTarget)) true,
      .deliver 1 mT pTarget (.val 7 7), .reqStart 1 (.deactivate (.par mT pTarget)), .deliver 1 mT pTarget (.val 5 5),
      .reply 1 (.deactivate (.par mT pTarget)) true] = true := by decide
+
+/-! ### round 4 examples -/
+
+/-- connection 1 activates `T:target` and then reads it (the driver answers 5 at time 3): its own request thread stores the
+value, delivers it to the connection itself, the announcement returns, the reply follows -/
+def exInit7 : State :=
+  init (fun c => if c = 1 then [.activate (.par mT pTarget), .rw false mT pTarget (.val 5 3)] else []) (fun _ => []) (fun _ _ => .val 0 0)
+
+def exActs7 : List Act :=
+  List.replicate 13 ⟨.h 1, 0⟩ ++ [⟨.u 3, 0⟩, ⟨.u 3, 0⟩, ⟨.u 3, 1⟩, ⟨.u 3, 0⟩, ⟨.u 3, 0⟩] ++ List.replicate 4 ⟨.h 1, 0⟩
+
+example : ((run exCfg exInit7 exActs7).map (fun σ => (σ.trace.drop 3, σ.cache mT pTarget, finished σ (.h 1),
+      (lossMon exCfg).accepts σ.trace, quiescentBadNow exCfg σ.cache σ.trace))) =
+    some ([.reqStart 1 (.rw false mT pTarget (.val 5 3)), .emit 3 mT pTarget (.val 5 3), .deliver 1 mT pTarget (.val 5 3),
+           .emitDone 3, .reply 1 (.rw false mT pTarget (.val 5 3)) true], .val 5 3, true, true, none) := by
+  rfl
+
+/-- `request_update_within_request` is about something: in the middle of that run the slot `own 1 = 3` is busy, connection 1
+holds `_lock` and its open request is the `read` -/
+example : ((run exCfg exInit7 (exActs7.take 15)).map (fun σ => (slotIdle σ (own 1), σ.disp,
+      matchMon.after matchMon.init σ.trace 1))) = some (false, some 1, some (.rw false mT pTarget (.val 5 3))) := by
+  decide +kernel
+
+/-- the slot cannot run ahead of the request (before the call it is blocked), and the request cannot return before the
+announcement is done -/
+example : (run exCfg exInit7 (List.replicate 12 ⟨.h 1, 0⟩ ++ [⟨.u 3, 0⟩])).isSome = false ∧
+    (run exCfg exInit7 (List.replicate 14 ⟨.h 1, 0⟩)).isSome = false := by decide +kernel
+
+/-- the trace of the seeded "pending read" change (the requester is left out of the listeners of its own read) is rejected by
+the loss monitor and by the quiescence monitor -/
+example : (lossMon exCfg).accepts
+    [.reqStart 1 (.activate (.par mT pTarget)), .deliver 1 mT pTarget (.val 0 0), .reply 1 (.activate (.par mT pTarget)) true,
+     .reqStart 1 (.rw false mT pTarget (.val 5 3)), .emit 3 mT pTarget (.val 5 3), .emitDone 3,
+     .reply 1 (.rw false mT pTarget (.val 5 3)) true] = false ∧
+    (quiescentBadNow exCfg (fun _ _ => .val 5 3)
+    [.reqStart 1 (.activate (.par mT pTarget)), .deliver 1 mT pTarget (.val 0 0), .reply 1 (.activate (.par mT pTarget)) true,
+     .reqStart 1 (.rw false mT pTarget (.val 5 3)), .emit 3 mT pTarget (.val 5 3), .emitDone 3,
+     .reply 1 (.rw false mT pTarget (.val 5 3)) true]).isSome = true := by decide +kernel
+
+/-- a `change` takes `accessLock` twice, a `write_` function that raises announces nothing and the reply is an error report -/
+def exInit8 : State :=
+  init (fun c => if c = 1 then [.rw true mT pTarget (.err 0 4)] else []) (fun _ => []) (fun _ _ => .val 0 0)
+
+example : ((run exCfg exInit8 (List.replicate 9 ⟨.h 1, 0⟩)).map (fun σ => (σ.trace, finished σ (.h 1), σ.cache mT pTarget))) =
+    some ([.reqStart 1 (.rw true mT pTarget (.err 0 4)), .reply 1 (.rw true mT pTarget (.err 0 4)) false], true, .val 0 0) := by
+  decide +kernel
+
+/-- the omit window of 3 on `T:target`: the same value 1 at times 1, 2 (inside: omitted, the entry keeps time stamp 1) and
+4 (the window is over: announced) — the hypotheses of `omitted_announcement_stores_nothing` and `cache_changes_only_by_store`
+are met along a reachable run -/
+def exCfgW : Cfg := ⟨[mT], fun _ => [pTarget], [1], fun _ => false, fun _ _ => 3, fun _ _ _ => .calls⟩
+def exInit9 : State :=
+  init (fun c => if c = 1 then [.activate .all] else [])
+       (fun k => if k = 2 then [(mT, pTarget, .val 1 1), (mT, pTarget, .val 1 2), (mT, pTarget, .val 1 4)] else []) (fun _ _ => .val 0 0)
+
+def exActs9a : List Act := List.replicate 10 ⟨.h 1, 0⟩ ++ [⟨.u 2, 0⟩, ⟨.u 2, 0⟩, ⟨.u 2, 1⟩, ⟨.u 2, 0⟩, ⟨.u 2, 0⟩]
+
+example : ((run exCfgW exInit9 exActs9a).map (fun σ => (σ.upc 2, σ.uscript 2, σ.cache mT pTarget,
+      emits exCfgW mT pTarget (σ.cache mT pTarget) (.val 1 2)))) =
+    some (.idle, [(mT, pTarget, .val 1 2), (mT, pTarget, .val 1 4)], .val 1 1, false) := by rfl
+
+example : ((run exCfgW exInit9 (exActs9a ++ [⟨.u 2, 0⟩, ⟨.u 2, 0⟩] ++ [⟨.u 2, 0⟩, ⟨.u 2, 0⟩, ⟨.u 2, 1⟩, ⟨.u 2, 0⟩, ⟨.u 2, 0⟩])).map (fun σ =>
+      (σ.trace.drop 3, σ.cache mT pTarget, lastDelivered σ.trace 1 mT pTarget))) =
+    some ([.emit 2 mT pTarget (.val 1 1), .deliver 1 mT pTarget (.val 1 1), .emitDone 2,
+           .emit 2 mT pTarget (.val 1 4), .deliver 1 mT pTarget (.val 1 4), .emitDone 2], .val 1 4, some (.val 1 4)) := by
+  decide +kernel
+
+/-- what the seeded "refresh the time stamp of an omitted value" change produces — the node holds (1, t = 2) while the
+connection's last message says t = 1 and no store is in the trace — is rejected when the node's cache is given to the monitor -/
+example : (quiescentBadNow exCfgW (fun _ _ => .val 1 2)
+    [.reqStart 1 (.activate .all), .deliver 1 mT pTarget (.val 0 0), .reply 1 (.activate .all) true,
+     .emit 2 mT pTarget (.val 1 1), .deliver 1 mT pTarget (.val 1 1), .emitDone 2]).isSome = true ∧
+    (quiescentBadNow exCfgW (fun _ _ => .val 1 1)
+    [.reqStart 1 (.activate .all), .deliver 1 mT pTarget (.val 0 0), .reply 1 (.activate .all) true,
+     .emit 2 mT pTarget (.val 1 1), .deliver 1 mT pTarget (.val 1 1), .emitDone 2]) = none := by decide +kernel
+
+/-- initial states other than a plain value: the cache holds the start-up state "not initialized" (error class 2, no time
+stamp) for `T:target`; the snapshot of `activate` delivers it like everything else (`snapshot_complete` holds for every initial
+cache), and the monitor rejects a snapshot that leaves it out -/
+def exInit10 : State :=
+  init (fun c => if c = 1 then [.activate (.mod mT)] else []) (fun _ => [])
+       (fun _ p => if p = pTarget then .err 2 0 else .val 0 0)
+
+example : ((run exCfg exInit10 (List.replicate 13 ⟨.h 1, 0⟩)).map (fun σ => σ.trace)) =
+    some [.reqStart 1 (.activate (.mod mT)), .deliver 1 mT pTarget (.err 2 0), .deliver 1 mT pTargetMax (.val 0 0),
+          .reply 1 (.activate (.mod mT)) true] := by decide +kernel
+
+example : (snapMon exCfg (fun _ p => if p = pTarget then .err 2 0 else .val 0 0)).accepts
+    [.reqStart 1 (.activate (.mod mT)), .deliver 1 mT pTargetMax (.val 0 0), .reply 1 (.activate (.mod mT)) true] = false := by
+  decide +kernel
 
 end Frappy.Props.C08
